@@ -28,13 +28,13 @@ Definition rw_sp : sp := mkSp [] 0 0 0 0 [1] 0 (mkReq 1 1 0 []) None 0 0 SSkip.
 Definition rw_world : world := mkW [] [] [] [] 0 1 0 false false [].
 
 Example request_waits_counterexample :
-  output_buffer (rsp (mkR rw_sp false false)) <> [] /\
-  poll_output_l 0 (mkR rw_sp false false) (HWriter 0) rw_world = (PReady (inr 99), mkR rw_sp false false, HWriter 0, rw_world).
+  output_buffer (rsp (mkR rw_sp false false false)) <> [] /\
+  poll_output_l 0 (mkR rw_sp false false false) (HWriter 0) rw_world = (PReady (inr 99), mkR rw_sp false false false, HWriter 0, rw_world).
 Proof. split; [vm_compute; discriminate|reflexivity]. Qed.
 
 Lemma request_waits_full_false : ~ request_waits_full.
 Proof.
-  intros H. specialize (H O (mkR rw_sp false false) 0 rw_world).
+  intros H. specialize (H O (mkR rw_sp false false false) 0 rw_world).
   destruct request_waits_counterexample as [Hne E]. specialize (H Hne). rewrite E in H. discriminate H.
 Qed.
 
@@ -392,10 +392,10 @@ Lemma po_l_nonwriter f r h w x o : isw h = false -> output_buffer (rsp r) = x ::
   poll_output_l (S f) r h w =
     match t_poll_write (x :: o) w with
     | (PReady (inl n), w') =>
-      if n =? 0 then (PReady (inr EK_WriteZero), mkR (rsp r) (rwriteable r) true, HRequest, w')
-      else poll_output_l f (mkR (consume_output (rsp r) n) (rwriteable r) true) HRequest w'
-    | (PReady (inr k), w') => (PReady (inr k), mkR (rsp r) (rwriteable r) true, HRequest, w')
-    | (PWake, w') => (PWake, mkR (rsp r) (rwriteable r) true, HRequest, w')
+      if n =? 0 then (PReady (inr EK_WriteZero), mkR (rsp r) (rwriteable r) true (raborted r), HRequest, w')
+      else poll_output_l f (mkR (consume_output (rsp r) n) (rwriteable r) true (raborted r)) HRequest w'
+    | (PReady (inr k), w') => (PReady (inr k), mkR (rsp r) (rwriteable r) true (raborted r), HRequest, w')
+    | (PWake, w') => (PWake, mkR (rsp r) (rwriteable r) true (raborted r), HRequest, w')
     | (PBlock, w') => (PBlock, r, HRequest, w')
     end.
 Proof. intros Hw Ho. cbn [poll_output_l]. rewrite Ho. destruct h; [reflexivity|discriminate Hw|reflexivity]. Qed.
@@ -427,7 +427,7 @@ Proof.
       set (out := output_buffer (rsp r)) in *.
       assert (Hne : out <> []) by (rewrite Eo; discriminate).
       assert (Hstay : forall k w1, wlog w1 = wlog w ->
-                exists fl part', Rstep h part r w HRequest part' (mkR (rsp r) (rwriteable r) true) w1 fl /\
+                exists fl part', Rstep h part r w HRequest part' (mkR (rsp r) (rwriteable r) true (raborted r)) w1 fl /\
                   (forall u : unit, @PReady (unit + N) (inr k) = PReady (inl u) -> HRequest <> HRequest)).
       { intros k w1 Hl. exists [], part. split; [|intros u Hu; discriminate Hu].
         split; [intros pre Hp; rewrite Hl; exact Hp|]. split; [constructor|].
@@ -440,7 +440,7 @@ Proof.
       * destruct (N.eqb_spec n 0) as [Hn0|Hn0].
         { injection E as <- <- <- <-. apply Hstay. rewrite Hlg. subst n. rewrite take_0. apply app_nil_r. }
         destruct Hp as [Hn _].
-        assert (Hi1 : Rinv HRequest (part ++ take n out) (mkR (consume_output (rsp r) n) (rwriteable r) true)).
+        assert (Hi1 : Rinv HRequest (part ++ take n out) (mkR (consume_output (rsp r) n) (rwriteable r) true (raborted r))).
         { cbn [Rinv rlock]. split; [reflexivity|]. left. intros X. apply app_eq_nil in X. destruct X as [_ X].
           apply (f_equal len) in X. rewrite len_take, len_nil in X. apply len_pos_nonnil in Hne. lia. }
         destruct (IH _ _ _ _ _ _ _ _ Hi1 E) as (fl & part' & (A1 & A2 & A3 & A4 & A5 & A6) & Hpr).
@@ -468,8 +468,8 @@ Proof.
   - destruct (s_end s || (0 <? s_stream s)).
     + injection E as <- <- <- <-. exists [], part.
       apply Rstep_same; [reflexivity|eapply Rinv_indep; eassumption|].
-      destruct (negb (rwriteable r) && is_final_stream (mkR p1 (rwriteable r) (rlock r))); exact Hq.
-    + set (r2 := mkR (compress p1) (rwriteable r) (rlock r)) in *.
+      destruct (negb (rwriteable r) && is_final_stream (mkR p1 (rwriteable r) (rlock r) (raborted r))); exact Hq.
+    + set (r2 := mkR (compress p1) (rwriteable r) (rlock r) (raborted r)) in *.
       assert (Hq2 : sreq (rsp r2) = sreq (rsp r)) by exact Hq.
       assert (Hi2 : Rinv h part r2) by (eapply Rinv_indep; eassumption).
       destruct (poll_output_l (S f) r2 h w) as [[[po r3] h3] w0] eqn:EP.
@@ -508,7 +508,7 @@ Proof.
   assert (Hsame : (p, r', h', w') = (PReady (inl (0, [])), r, h, w) -> exists fl part', Rstep h part r w h' part' r' w' fl).
   { intros X. injection X as -> -> -> ->. exists [], part. apply Rstep_same; [reflexivity|exact Hi|reflexivity]. }
   assert (Hcons : forall c, (PReady (inl (N.min c (len (stream_buffer (rsp r))), take (N.min c (len (stream_buffer (rsp r)))) (stream_buffer (rsp r)))),
-                    mkR (consume_stream (rsp r) (N.min c (len (stream_buffer (rsp r))))) (rwriteable r) (rlock r), h, w) = (p, r', h', w') ->
+                    mkR (consume_stream (rsp r) (N.min c (len (stream_buffer (rsp r))))) (rwriteable r) (rlock r) (raborted r), h, w) = (p, r', h', w') ->
                     exists fl part', Rstep h part r w h' part' r' w' fl).
   { intros c X. injection X as <- <- <- <-. exists [], part. apply Rstep_same; [reflexivity| |reflexivity].
     destruct h; [exact Hi|exact I|exact Hi]. }
